@@ -44,6 +44,12 @@ def enum_variant_of_const(program, t):
     for var in adt["variants"]:
         if var["discr"] == d and not var["fields"]:
             return var["name"]
+    # data-carrying enum whose tag is the first byte (repr(u8) or the default layout of small enums with byte payloads)
+    if isinstance(v, (bytes, bytearray)) and 2 <= len(v) <= 16 and any(var["fields"] for var in adt["variants"]):
+        tag = v[0]
+        for var in adt["variants"]:
+            if var["discr"] == tag and not var["fields"]:
+                return var["name"]
     return None
 
 
